@@ -49,9 +49,10 @@ const (
 	OpMap
 	OpWait
 	OpUser
+	OpSettle
 )
 
-var opNames = [...]string{"none", "start", "yield", "spin", "lock", "unlock", "rlock", "wlock", "atomic", "once", "send", "recv", "close", "select", "sleep", "timerstart", "map", "wait", "user"}
+var opNames = [...]string{"none", "start", "yield", "spin", "lock", "unlock", "rlock", "wlock", "atomic", "once", "send", "recv", "close", "select", "sleep", "timerstart", "map", "wait", "user", "settle"}
 
 func (k OpKind) String() string { return opNames[k] }
 
@@ -327,6 +328,8 @@ func (x *Exec) enabled(t *Thread) bool {
 		if p.wg != nil {
 			return p.wg.N <= 0
 		}
+	case OpSettle:
+		return false
 	}
 	if p.ready != nil {
 		syncOff()
@@ -379,6 +382,18 @@ func (x *Exec) schedule(curT *Thread, curAlive bool) *Thread {
 			if x.enabled(t) {
 				x.opts[n] = t
 				n++
+			}
+		}
+		if n == 0 {
+			// nobody can run: a thread waiting for quiescence (Settle) goes first, before time advances
+			if curAlive && curT.pend.kind == OpSettle {
+				return curT
+			}
+			for i := 0; i < x.nthreads; i++ {
+				t := x.threads[i]
+				if t != curT && t.state == tsParked && t.pend.kind == OpSettle {
+					return t
+				}
 			}
 		}
 		clock := x.nextTimer() != nil
@@ -487,6 +502,19 @@ func Yield() {
 		return
 	}
 	x.point(pending{kind: OpYield})
+}
+
+// Settle parks the calling thread until no other thread can run (everything the previous action
+// caused has happened); virtual time does not advance meanwhile. Harness drivers use it to issue the
+// next notification only after the previous one was processed to quiescence.
+//
+//go:norace
+func Settle() {
+	x := cur
+	if x == nil || x.aborting {
+		return
+	}
+	x.point(pending{kind: OpSettle})
 }
 
 // Spin replaces runtime.Gosched() inside spin loops: the thread is disabled until some other thread
